@@ -288,8 +288,13 @@ def run(rep, tier, seed):
             for i in range(n)]
     results = mc.pool_map(jc.model_worker, jobs)
     for r in results:
-        r["findings"] = []          # crashes etc. are C04's
-    acc, _ = judge(rep, results, {"draws-or-walk"}, "C05", python_findings=False)
+        # crashes etc. are C04's -- except in the runs made after the model object was extended: there a step that cannot
+        # even be written down (a count vector shorter than the event list, an index error) means that an event of the
+        # extended model is given no clock at all
+        r["findings"] = [f for f in r["findings"] if f.get("plan", {}).get("after_add")]
+        for f in r["findings"]:
+            f["what"] = "after the model was extended: " + f["what"]
+    acc, _ = judge(rep, results, {"draws-or-walk"}, "C05", python_findings=True)
     nfr = rep.cov.get("event_kinds", {}).get("FR", 0)
     rep.cov["exact_steps_with_validated_draws"] = nfr
     if nfr < 200 and not rep.violations:
